@@ -1,3 +1,4 @@
+import Splipy.Lemmas.C10Cummax
 import Splipy.Lemmas.C14Interp
 set_option linter.unusedSimpArgs false
 set_option linter.unusedSectionVars false
@@ -12,10 +13,11 @@ open Finset
 variable {K : Type} [Field K] [LinearOrder K] [FloorRing K]
 
 omit [FloorRing K] in
-/-- A successful constructor call returns exactly the given data (periodicity clipped at −1). -/
+/-- A successful constructor call returns the given data (periodicity clipped at −1, the knots as their running
+    maximum — the knots themselves when they are sorted, `Basis.cummax_of_pairwise`). -/
 theorem Basis.mk?_ok_c14 (order : ℕ) (knots : Array K) (periodic : Int) (tol : K) (b : Basis K)
     (h : Basis.mk? order knots periodic tol = .ok b) :
-    b.order = order ∧ b.knots = knots ∧ b.periodic = max periodic (-1) ∧ 2 * order ≤ knots.size := by
+    b.order = order ∧ b.knots = Basis.cummax knots ∧ b.periodic = max periodic (-1) ∧ 2 * order ≤ knots.size := by
   unfold Basis.mk? at h
   simp only at h
   split at h
